@@ -39,8 +39,8 @@ class FilteredFileAdapter(FileAdapter, FilteredAdapter):
     def load_policy(self, model):
         if not os.path.isfile(self._file_path):
             raise RuntimeError("invalid file path, file path cannot be empty")
-        self.filtered = False
         self._load_policy_file(model)
+        self.filtered = False
 
     # load_filtered_policy loads only policy rules that match the filter.
     def load_filtered_policy(self, model, filter):
